@@ -17,7 +17,7 @@ use proptest::prelude::*;
 use redis_sim::redis::SDS;
 use redis_sim::replication::lattice::{LamportClock, ReplicaId};
 use redis_sim::replication::state::{ReplicatedValue, ReplicationDelta};
-use redis_sim::streaming::wal::{WalEntry, WalReader, WalRotator, WAL_ENTRY_OVERHEAD, WAL_HEADER_SIZE};
+use redis_sim::streaming::wal::{WalEntry, WalReader, WalRotator, WalWriter, WAL_ENTRY_OVERHEAD, WAL_HEADER_SIZE};
 use redis_sim::streaming::wal_store::WalStore;
 use serde::{Deserialize, Serialize};
 use serde_json::json;
@@ -33,14 +33,28 @@ const KF_ZERO: &str = "KF-C10-02";
 // independent CRC-32 (IEEE 802.3, reflected, as the format documents "CRC32")
 // ---------------------------------------------------------------------------------------
 
+const fn crc_table() -> [u32; 256] {
+    let mut t = [0u32; 256];
+    let mut i = 0;
+    while i < 256 {
+        let mut c = i as u32;
+        let mut k = 0;
+        while k < 8 {
+            c = if c & 1 != 0 { (c >> 1) ^ 0xedb8_8320 } else { c >> 1 };
+            k += 1;
+        }
+        t[i] = c;
+        i += 1;
+    }
+    t
+}
+
+static CRC_TABLE: [u32; 256] = crc_table();
+
 fn crc32(data: &[u8]) -> u32 {
     let mut crc: u32 = 0xffff_ffff;
     for &b in data {
-        crc ^= b as u32;
-        for _ in 0..8 {
-            let mask = (crc & 1).wrapping_neg();
-            crc = (crc >> 1) ^ (0xedb8_8320 & mask);
-        }
+        crc = CRC_TABLE[((crc ^ b as u32) & 0xff) as usize] ^ (crc >> 8);
     }
     !crc
 }
@@ -67,6 +81,11 @@ struct EntrySpec {
     /// the process restarts before this entry: a new `WalRotator` over the same store
     restart_before: bool,
     kind: String,
+    /// > 0: a large entry whose payload is not stored in the case but generated: kind
+    /// "big_raw" = `big_len` pattern bytes seeded by `data[0]`; kind "big_delta" = bincode of a
+    /// real ReplicationDelta whose SERIALIZED size is exactly `big_len`
+    #[serde(default)]
+    big_len: u32,
 }
 
 #[derive(Clone, Debug, Serialize, Deserialize)]
@@ -85,6 +104,76 @@ struct ImageCase {
     overwrites: Vec<Overwrite>,
     /// sampled payload bit positions (fractions of the file's bit length), quick tier
     bit_samples: Vec<u16>,
+    /// > 0: the log does not start at sequence 1: a header-only file with this sequence
+    /// already exists (aimed at the 8-hex-digit boundary of the file name)
+    #[serde(default)]
+    start_seq: u64,
+}
+
+/// Payload sizes aimed at powers of two and their neighbours.
+fn big_size() -> impl Strategy<Value = u32> {
+    prop_oneof![
+        4 => prop_oneof![Just(65_535u32), Just(65_536u32), Just(65_537u32)],
+        6 => (-64i32..=64).prop_map(|d| (1_048_576 + d) as u32),
+        3 => prop_oneof![Just(1_048_576u32 - 16), Just(1_048_576u32), Just(1_048_577u32), Just(1_048_576u32 + 16)],
+        1 => Just(2 * 1_048_576u32),
+        1 => Just(4 * 1_048_576u32 + 1),
+    ]
+}
+
+fn pattern(len: usize, seed: u8) -> Vec<u8> {
+    let mut x: u32 = 0x9e37_79b9 ^ (seed as u32).wrapping_mul(0x0101_0101);
+    let mut v = Vec::with_capacity(len);
+    for _ in 0..len {
+        x = x.wrapping_mul(1_664_525).wrapping_add(1_013_904_223);
+        v.push((x >> 24) as u8);
+    }
+    v
+}
+
+/// bincode of a real delta whose serialized size is exactly `target` bytes
+fn big_delta(target: usize, seed: u8) -> Vec<u8> {
+    let mk = |n: usize| {
+        let rid = ReplicaId::new(1 + (seed % 3) as u64);
+        let rv = ReplicatedValue::with_value(
+            SDS::new(pattern(n, seed)),
+            LamportClock {
+                time: seed as u64,
+                replica_id: rid,
+            },
+        );
+        bincode::serialize(&ReplicationDelta::new(format!("big{}", seed % 7), rv, rid)).expect("bincode of a delta")
+    };
+    let base = mk(0).len();
+    let mut n = target.saturating_sub(base);
+    for _ in 0..3 {
+        let got = mk(n).len();
+        if got == target {
+            break;
+        }
+        n = (n + target).saturating_sub(got);
+    }
+    mk(n)
+}
+
+/// The case with the payloads of its large entries filled in.
+fn materialise(case: &ImageCase) -> ImageCase {
+    let mut c = case.clone();
+    for e in &mut c.entries {
+        if e.big_len > 0 {
+            let seed = e.data.first().copied().unwrap_or(0);
+            e.data = if e.kind == "big_delta" {
+                big_delta(e.big_len as usize, seed)
+            } else {
+                pattern(e.big_len as usize, seed)
+            };
+        }
+    }
+    c
+}
+
+fn has_big(case: &ImageCase) -> bool {
+    case.entries.iter().any(|e| e.big_len > 0)
 }
 
 fn delta_payload() -> impl Strategy<Value = Vec<u8>> {
@@ -155,10 +244,11 @@ fn entry_spec() -> impl Strategy<Value = EntrySpec> {
         stamp,
         restart_before,
         kind: kind.to_string(),
+        big_len: 0,
     })
 }
 
-fn image_case() -> impl Strategy<Value = ImageCase> {
+fn small_image_case() -> impl Strategy<Value = ImageCase> {
     (
         proptest::collection::vec(entry_spec(), 0..=12),
         prop_oneof![
@@ -189,7 +279,70 @@ fn image_case() -> impl Strategy<Value = ImageCase> {
             max_file_size,
             overwrites,
             bit_samples,
+            start_seq: 0,
         })
+}
+
+/// 0..4 ordinary entries plus 1..2 large ones (first / middle / last), rotation threshold
+/// never / right behind the large entry / tiny, so that the large entry is followed by later
+/// entries in its file or sits next to a rotation.
+fn large_image_case() -> impl Strategy<Value = ImageCase> {
+    (
+        proptest::collection::vec(entry_spec(), 0..=4),
+        proptest::collection::vec(
+            (big_size(), any::<u8>(), prop::bool::ANY, stamp(), prop_oneof![Just(0u16), Just(32768u16), Just(65535u16), any::<u16>()]),
+            1..=2,
+        ),
+        prop_oneof![3 => Just(0u8), 2 => Just(1u8), 1 => Just(2u8), 1 => Just(3u8)],
+        proptest::collection::vec(
+            (any::<u16>(), any::<u16>(), proptest::collection::vec(any::<u8>(), 2..=8))
+                .prop_map(|(file, pos, bytes)| Overwrite { file, pos, bytes }),
+            0..=3,
+        ),
+    )
+        .prop_map(|(mut entries, bigs, mfs_mode, overwrites)| {
+            let first_big = bigs[0].0;
+            for (len, seed, delta, stamp, pos) in bigs {
+                let at = ((pos as usize) * (entries.len() + 1)) >> 16;
+                entries.insert(
+                    at,
+                    EntrySpec {
+                        data: vec![seed],
+                        stamp,
+                        restart_before: false,
+                        kind: if delta { "big_delta".into() } else { "big_raw".into() },
+                        big_len: len,
+                    },
+                );
+            }
+            let max_file_size = match mfs_mode {
+                0 => 1u32 << 30,
+                1 => first_big + 300,
+                2 => 17,
+                _ => 400,
+            };
+            ImageCase {
+                entries,
+                max_file_size,
+                overwrites,
+                bit_samples: vec![],
+                start_seq: 0,
+            }
+        })
+}
+
+/// `big` = share of large-entry images per 10 000
+fn image_case_with(big: u32) -> impl Strategy<Value = ImageCase> {
+    prop_oneof![
+        9_600 - big => small_image_case(),
+        // the file-name width boundary wal-ffffffff.wal -> wal-100000000.wal
+        400 => (small_image_case(), prop_oneof![Just(0xffff_fffeu64), Just(0xffff_fffdu64), Just(0xffu64), Just(0xffff_ffff_ffffu64)])
+            .prop_map(|(mut c, s)| {
+                c.start_seq = s;
+                c
+            }),
+        big => large_image_case(),
+    ]
 }
 
 // ---------------------------------------------------------------------------------------
@@ -232,6 +385,11 @@ fn wal_entry(e: &EntrySpec) -> WalEntry {
 fn build(case: &ImageCase) -> Result<Image, String> {
     let store = ImgStore::new();
     let mfs = (case.max_file_size as usize).max(WAL_HEADER_SIZE + 1);
+    if case.start_seq > 0 {
+        // an older, header-only file: the log continues behind its sequence number
+        let w = store.create(&file_name(case.start_seq)).map_err(|e| e.to_string())?;
+        WalWriter::new(w, case.start_seq).map_err(|e| format!("WalWriter::new: {}", e))?;
+    }
     let mut rot = WalRotator::new(store.clone(), mfs).map_err(|e| format!("WalRotator::new: {}", e))?;
     let mut per_file: BTreeMap<u64, Vec<usize>> = BTreeMap::new();
     for (i, e) in case.entries.iter().enumerate() {
@@ -557,7 +715,15 @@ fn locate(f: &FileImg, off: usize) -> String {
 
 fn check_image(case: &ImageCase, ctx: &mut CaseCtx<'_>) -> Result<(), String> {
     let thorough = ctx.tier() == vcore::Tier::Thorough;
+    let big = has_big(case);
+    let case = &materialise(case);
     let img = build(case)?;
+    if big {
+        ctx.label("large_entry(aimed_mutations_only)");
+    }
+    if case.start_seq > 0 {
+        ctx.label("start_seq_aimed_at_name_width");
+    }
     let n_entries = case.entries.len();
     ctx.label(&format!("files={}", img.files.len().min(6)));
     ctx.label(&format!("entries={}", if n_entries >= 8 { "8+".to_string() } else { n_entries.to_string() }));
@@ -600,8 +766,26 @@ fn check_image(case: &ImageCase, ctx: &mut CaseCtx<'_>) -> Result<(), String> {
         let f = &img.files[m];
         let orig = f.bytes.clone();
 
-        // ---- every truncation length
-        for l in (0..orig.len()).rev() {
+        // ---- every truncation length (a file holding a large entry: aimed lengths only)
+        let big_file = orig.len() > 32_768;
+        let lengths: Vec<usize> = if !big_file {
+            (0..orig.len()).rev().collect()
+        } else {
+            let mut v: BTreeSet<usize> = [0usize, 1, 15, 16, 17].into_iter().collect();
+            for k in 0..f.entries.len() {
+                let (a, b) = (f.offs[k], f.offs[k + 1]);
+                for d in [0usize, 1, 15, 16, 17, 16 + 65_535, 16 + 65_536, 16 + 65_537, 16 + (1 << 20) - 1, 16 + (1 << 20), 16 + (1 << 20) + 1] {
+                    if a + d < b {
+                        v.insert(a + d);
+                    }
+                }
+                v.insert(a.saturating_sub(1));
+                v.insert(b - 1);
+                v.insert((a + b) / 2);
+            }
+            v.into_iter().filter(|&l| l < orig.len()).rev().collect()
+        };
+        for l in lengths {
             evals += 1;
             check_mutation(&img, m, &orig[..l], &|| {
                 format!("{} ({} bytes, {} entries) truncated to {} bytes ({})", f.name, orig.len(), f.entries.len(), l, locate(f, l))
@@ -610,7 +794,19 @@ fn check_image(case: &ImageCase, ctx: &mut CaseCtx<'_>) -> Result<(), String> {
 
         // ---- single-bit flips
         let mut bits: BTreeSet<usize> = BTreeSet::new();
-        if thorough {
+        if big_file {
+            // one bit per header field (incl. the 2^16 / 2^20 / 2^21 / 2^31 bits of the length
+            // field), first and last payload bit, middle of the payload
+            for k in 0..f.entries.len() {
+                let a = f.offs[k] * 8;
+                for d in [0usize, 20, 21, 32, 96, 128] {
+                    bits.insert(a + d);
+                }
+                bits.insert(f.offs[k + 1] * 8 - 1);
+                bits.insert((f.offs[k] + f.offs[k + 1]) * 4);
+            }
+            bits.insert(64);
+        } else if thorough {
             bits.extend(0..orig.len() * 8);
         } else {
             bits.extend(0..WAL_HEADER_SIZE.min(orig.len()) * 8);
@@ -641,7 +837,7 @@ fn check_image(case: &ImageCase, ctx: &mut CaseCtx<'_>) -> Result<(), String> {
         //      zero / garbage tails appended after the last entry
         for k in 0..f.entries.len() {
             for end in [f.offs[k] + 16, f.offs[k + 1], orig.len()] {
-                if end > orig.len() {
+                if end > orig.len() || (big_file && end != f.offs[k] + 16) {
                     continue;
                 }
                 evals += 1;
@@ -654,7 +850,10 @@ fn check_image(case: &ImageCase, ctx: &mut CaseCtx<'_>) -> Result<(), String> {
                 }, ctx)?;
             }
         }
-        for tail in [vec![0u8; 1], vec![0u8; 15], vec![0u8; 16], vec![0u8; 40], vec![0xffu8; 16], vec![0xffu8; 3]] {
+        for (ti, tail) in [vec![0u8; 1], vec![0u8; 15], vec![0u8; 16], vec![0u8; 40], vec![0xffu8; 16], vec![0xffu8; 3]].into_iter().enumerate() {
+            if big_file && ti != 2 && ti != 4 {
+                continue;
+            }
             evals += 1;
             let mut w = orig.clone();
             w.extend_from_slice(&tail);
@@ -740,12 +939,28 @@ fn check_image(case: &ImageCase, ctx: &mut CaseCtx<'_>) -> Result<(), String> {
 // ---------------------------------------------------------------------------------------
 
 fn check_truncate(case: &ImageCase, ctx: &mut CaseCtx<'_>) -> Result<(), String> {
+    if has_big(case) {
+        ctx.label("large_entry");
+    }
+    let case = &materialise(case);
     let mut ts: BTreeSet<u64> = case.entries.iter().map(|e| e.stamp).collect();
     ts.insert(0);
     if let Some(&mx) = ts.iter().next_back() {
         if let Some(n) = mx.checked_add(1) {
             ts.insert(n);
         }
+    }
+    if has_big(case) {
+        // each (T, variant) rebuilds a multi-megabyte image: the large entries' stamps, the
+        // stamp just below, 0 and max+1
+        let keep: BTreeSet<u64> = case
+            .entries
+            .iter()
+            .filter(|e| e.big_len > 0)
+            .flat_map(|e| [e.stamp, e.stamp.saturating_sub(1)])
+            .chain([0, *ts.iter().next_back().unwrap()])
+            .collect();
+        ts.retain(|t| keep.contains(t));
     }
     let mut evals = 0u64;
     let mut deleted_any = false;
@@ -828,6 +1043,7 @@ fn check_truncate(case: &ImageCase, ctx: &mut CaseCtx<'_>) -> Result<(), String>
                 stamp: t,
                 restart_before: false,
                 kind: "raw".into(),
+                big_len: 0,
             };
             rot.append(&wal_entry(&extra)).map_err(|e| format!("{}: append after truncation failed: {}", what, e))?;
             let got2 = recover(&img.store).map_err(|e| format!("{}: {}", what, e))?;
@@ -870,6 +1086,10 @@ fn check_truncate(case: &ImageCase, ctx: &mut CaseCtx<'_>) -> Result<(), String>
 // ---------------------------------------------------------------------------------------
 
 fn check_entries_after(case: &ImageCase, ctx: &mut CaseCtx<'_>) -> Result<(), String> {
+    if has_big(case) {
+        ctx.label("large_entry");
+    }
+    let case = &materialise(case);
     let img = build(case)?;
     let mut ts: BTreeSet<u64> = case.entries.iter().map(|e| e.stamp).collect();
     ts.insert(0);
@@ -908,6 +1128,79 @@ fn check_entries_after(case: &ImageCase, ctx: &mut CaseCtx<'_>) -> Result<(), St
 
 // ---------------------------------------------------------------------------------------
 
+// ---------------------------------------------------------------------------------------
+// long logs: entry / file counts around 2^8, 2^10, 2^12, 2^16 (a counter or cap on one side only)
+// ---------------------------------------------------------------------------------------
+
+#[derive(Clone, Debug, Serialize, Deserialize)]
+struct LongCase {
+    n: u32,
+    /// true: rotation threshold 17, i.e. one file per entry (n files); false: one file
+    per_file: bool,
+}
+
+fn check_long(c: &LongCase, ctx: &mut CaseCtx<'_>) -> Result<(), String> {
+    let store = ImgStore::new();
+    let mfs = if c.per_file { 17 } else { 1usize << 30 };
+    let mut rot = WalRotator::new(store.clone(), mfs).map_err(|e| e.to_string())?;
+    let mut all: Vec<E> = Vec::with_capacity(c.n as usize);
+    for i in 0..c.n {
+        let data = i.to_le_bytes()[..1 + (i % 4) as usize].to_vec();
+        let e = WalEntry {
+            checksum: crc32(&data),
+            data: data.clone(),
+            timestamp: i as u64,
+        };
+        rot.append(&e).map_err(|err| format!("append #{} of {} failed: {}", i, c.n, err))?;
+        all.push((data, i as u64));
+    }
+    let files = store.names().len();
+    if c.per_file && files != c.n as usize {
+        return Err(format!("{} entries with a rotation after each: {} files exist", c.n, files));
+    }
+    let first_diff = |got: &[E], want: &[E]| -> String {
+        let k = got.iter().zip(want.iter()).position(|(a, b)| a != b).unwrap_or(got.len().min(want.len()));
+        format!("{} recovered, {} expected, first difference at index {}", got.len(), want.len(), k)
+    };
+    let got = recover(&store)?;
+    if got != all {
+        return Err(format!("{} entries appended to {} file(s): {}", c.n, files, first_diff(&got, &all)));
+    }
+    // truncation in the middle, on a fresh rotator and on the writing one
+    let t = (c.n / 2) as u64;
+    for active in [false, true] {
+        let st = store.deep_copy();
+        let deleted = if active {
+            // the writing rotator works on `store` itself: do this variant last
+            rot.truncate_before(t).map_err(|e| e.to_string())?
+        } else {
+            WalRotator::new(st.clone(), mfs).and_then(|mut r| r.truncate_before(t)).map_err(|e| e.to_string())?
+        };
+        let got = recover(if active { &store } else { &st })?;
+        let want: Vec<E> = if c.per_file {
+            all.iter().filter(|e| e.1 > t).cloned().collect()
+        } else {
+            all.clone()
+        };
+        if c.per_file && deleted != (t as usize + 1).min(c.n as usize) {
+            return Err(format!("truncate_before({}) over {} one-entry files deleted {} files", t, c.n, deleted));
+        }
+        if got != want {
+            return Err(format!(
+                "truncate_before({}) ({} active writer) over {} entries in {} file(s): {}",
+                t,
+                if active { "with" } else { "without" },
+                c.n,
+                files,
+                first_diff(&got, &want)
+            ));
+        }
+    }
+    ctx.nontrivial(&(c.n, c.per_file));
+    ctx.add_evaluations(3);
+    Ok(())
+}
+
 fn probe_case() -> ImageCase {
     ImageCase {
         entries: vec![
@@ -916,17 +1209,20 @@ fn probe_case() -> ImageCase {
                 stamp: 5,
                 restart_before: false,
                 kind: "raw".into(),
+                big_len: 0,
             },
             EntrySpec {
                 data: b"second".to_vec(),
                 stamp: 6,
                 restart_before: false,
                 kind: "raw".into(),
+                big_len: 0,
             },
         ],
         max_file_size: 1_000_000,
         overwrites: vec![],
         bit_samples: vec![],
+        start_seq: 0,
     }
 }
 
@@ -996,13 +1292,13 @@ fn main() {
         "images",
         "per generated image every truncation length, header bit, sampled (thorough: every) payload bit, zero fill, tail, overwrite, deletion and swap; recovered list compared with the exact intact prefix",
     );
-    s.run_cases("images", s.scale(8_000, 60_000), image_case, check_image);
+    s.run_cases("images", s.scale(8_000, 60_000), || image_case_with(25), check_image);
 
     s.describe_check(
         "truncate",
         "truncate_before(T) for every distinct stamp, 0 and max+1, on the writing rotator and on a fresh one: active file kept, no file with a stamp > T deleted, surviving files recover completely, log still appendable",
     );
-    s.run_cases("truncate", s.scale(20_000, 400_000), image_case, check_truncate);
+    s.run_cases("truncate", s.scale(20_000, 400_000), || image_case_with(8), check_truncate);
 
     s.describe_check(
         "entries_after",
@@ -1015,24 +1311,68 @@ fn main() {
             (
                 proptest::collection::vec((delta_payload(), stamp(), prop::bool::weighted(0.15)), 0..=12),
                 prop_oneof![Just(17u32), 17u32..600, Just(1_000_000u32)],
+                // 1 in 400: a large real delta (serialized size aimed at 64 KiB / 1 MiB / 2 MiB / 4 MiB+1
+                // and neighbours) somewhere in the sequence, no rotation behind it half of the time
+                prop_oneof![
+                    399 => Just(None),
+                    1 => (big_size(), any::<u8>(), stamp(), any::<u16>(), prop::bool::ANY).prop_map(Some),
+                ],
             )
-                .prop_map(|(v, max_file_size)| ImageCase {
-                    entries: v
+                .prop_map(|(v, max_file_size, bigd)| {
+                    let mut entries: Vec<EntrySpec> = v
                         .into_iter()
                         .map(|(data, stamp, restart_before)| EntrySpec {
                             data,
                             stamp,
                             restart_before,
                             kind: "delta".into(),
+                            big_len: 0,
                         })
-                        .collect(),
-                    max_file_size,
-                    overwrites: vec![],
-                    bit_samples: vec![],
+                        .collect();
+                    let mut max_file_size = max_file_size;
+                    if let Some((len, seed, stamp, pos, never_rotate)) = bigd {
+                        entries.truncate(5);
+                        let at = ((pos as usize) * (entries.len() + 1)) >> 16;
+                        entries.insert(
+                            at,
+                            EntrySpec {
+                                data: vec![seed],
+                                stamp,
+                                restart_before: false,
+                                kind: "big_delta".into(),
+                                big_len: len,
+                            },
+                        );
+                        if never_rotate {
+                            max_file_size = 1 << 30;
+                        }
+                    }
+                    ImageCase {
+                        entries,
+                        max_file_size,
+                        overwrites: vec![],
+                        bit_samples: vec![],
+                        start_seq: 0,
+                    }
                 })
         },
         check_entries_after,
     );
+
+    s.describe_check(
+        "long_log",
+        "n entries for n around 2^8, 2^10, 2^12, 2^16 in one file and in n files: complete recovery in order; truncate_before(n/2) keeps every newer entry",
+    );
+    let mut long_cases = Vec::new();
+    for base in [256u32, 1024, 4096, 65_536] {
+        for n in [base - 1, base, base + 1] {
+            long_cases.push(LongCase { n, per_file: false });
+            if base <= 4096 || s.thorough() || n == base + 1 {
+                long_cases.push(LongCase { n, per_file: true });
+            }
+        }
+    }
+    s.run_enumerated("long_log", long_cases.into_iter(), check_long);
 
     s.finish();
 }
